@@ -20,6 +20,8 @@ type origin struct {
 	mu   sync.Mutex
 	body map[string]originEntry
 	hits map[string]int
+	// delivered: requests for which the whole body was handed to the connection without error
+	delivered map[string]int
 }
 
 type originEntry struct {
@@ -28,7 +30,7 @@ type originEntry struct {
 }
 
 func newOrigin() *origin {
-	o := &origin{body: map[string]originEntry{}, hits: map[string]int{}}
+	o := &origin{body: map[string]originEntry{}, hits: map[string]int{}, delivered: map[string]int{}}
 	o.srv = httptest.NewServer(http.HandlerFunc(o.handle))
 	return o
 }
@@ -48,11 +50,20 @@ func (o *origin) handle(w http.ResponseWriter, r *http.Request) {
 		if f, ok := w.(http.Flusher); ok {
 			f.Flush() // forces chunked transfer encoding: no Content-Length
 		}
-		_, _ = w.Write(ent.body)
+		o.wrote(r.URL.Path, ent, w)
 		return
 	}
 	w.Header().Set("Content-Length", fmt.Sprint(len(ent.body)))
-	_, _ = w.Write(ent.body)
+	o.wrote(r.URL.Path, ent, w)
+}
+
+func (o *origin) wrote(path string, ent originEntry, w http.ResponseWriter) {
+	n, err := w.Write(ent.body)
+	if err == nil && n == len(ent.body) {
+		o.mu.Lock()
+		o.delivered[path]++
+		o.mu.Unlock()
+	}
 }
 
 func (o *origin) set(path string, e originEntry) {
@@ -61,13 +72,14 @@ func (o *origin) set(path string, e originEntry) {
 	o.mu.Unlock()
 }
 
-func (o *origin) del(path string) (hits int) {
+func (o *origin) del(path string) (hits, delivered int) {
 	o.mu.Lock()
 	delete(o.body, path)
-	hits = o.hits[path]
+	hits, delivered = o.hits[path], o.delivered[path]
 	delete(o.hits, path)
+	delete(o.delivered, path)
 	o.mu.Unlock()
-	return hits
+	return hits, delivered
 }
 
 func (o *origin) close() { o.srv.Close() }
